@@ -8,6 +8,7 @@ pub struct Campaign<'a> {
     pub max_len: usize,
     pub seed: u64,
     pub seeds: Vec<Vec<u8>>,
+    pub max_time: u64,
 }
 pub fn run(_c: &Campaign, _ev: &mut ExtraEvidence) -> Vec<Violation> {
     Vec::new()
